@@ -203,6 +203,13 @@ def gen_C09(v, n):
             if len(segs) > 4:
                 i = rng.randrange(2, len(segs) - 1)
                 out.append(_op("C09", {"tree": True, "leaves": ls, "s": "/".join(segs[:i] + [">", "**"]), "index": i}))
+        # '<name>' and '<name>-2' at a free level, of different leaf types: '>' at that level
+        for label, fields in list(leaves)[:2]:
+            pp = families.prefix_pair(v, label, fields)
+            if pp:
+                ls2 = ls + ["/".join(val for _, val in f2) for _, f2 in pp[0]]
+                for s_pp in pp[1][:2]:
+                    out.append(_op("C09", {"tree": True, "leaves": ls2, "s": s_pp, "index": s_pp.split("/").index(">")}))
         # one typed search of an alias search already served (its Finder chosen and cached), a FindInAll of
         # another configuration name used in between, then the alias search: still one answer per group
         extra, pairs = lopsided(v, leaves)
@@ -311,6 +318,13 @@ def gen_C11(v, n, model):
             if rng.random() < 0.3:   # a sidecar-like hidden file and a foreign file next to the entity
                 junk.append({"path": p.rsplit("/", 1)[0] + "/.stray.data.json", "kind": "file"})
                 junk.append({"path": p.rsplit("/", 1)[0] + "/notes.txt", "kind": "file"})
+            if rng.random() < 0.5:   # hidden files / folders at ancestor levels (free levels accept any visible name)
+                q = p
+                for _up in range(rng.randint(2, 5)):
+                    q = q.rsplit("/", 1)[0]
+                if q.count("/") > 6:
+                    junk.append({"path": q.rsplit("/", 1)[0] + "/." + q.rsplit("/", 1)[1] + ".data.json", "kind": "file"})
+                    junk.append({"path": q.rsplit("/", 1)[0] + "/.DS_Store", "kind": rng.choice(["file", "dir"])})
         # junk must not conform: keep only paths the model resolves to an untyped Sid, and only inside
         # directories the universe already has (planting must not create new conform folders on the way)
         have = set()
